@@ -156,9 +156,15 @@ func (x *Enc) typeFacts(t types.Type, v Val, h Heap) Term {
 		}
 		if l.Typ != nil {
 			fs = append(fs, rangeFact(l.Typ, v.ts[i]))
-			if _, isPtr := l.Typ.Underlying().(*types.Pointer); isPtr && h.m != nil {
+			_, isPtr := l.Typ.Underlying().(*types.Pointer)
+			_, isMap := l.Typ.Underlying().(*types.Map)
+			if (isPtr || isMap) && h.m != nil {
+				// references to existing objects (maps included) lie below the allocation top
 				x.regKey(keyAlloc, "Int")
 				fs = append(fs, app("<=", v.ts[i], x.hget(h, keyAlloc)))
+				if isMap {
+					fs = append(fs, app(">=", v.ts[i], "0"))
+				}
 			}
 		}
 	}
@@ -234,6 +240,7 @@ func (x *Enc) loadAt(h Heap, ptr Val, t types.Type) Val {
 			case 1:
 				x.regKey(key, heapSort(l.Sort))
 				v.ts[i] = app("select", x.hget(h, key), fp.base)
+				x.storedRefWF(h, l, v.ts[i])
 			case 2:
 				x.regKey(key, "(Array Int "+heapSort(l.Sort)+")")
 				v.ts[i] = app("select", app("select", x.hget(h, key), fp.base), fp.idx)
@@ -267,9 +274,25 @@ func (x *Enc) loadAt(h Heap, ptr Val, t types.Type) Val {
 			key := ptrKey(t, l.Path)
 			x.regKey(key, heapSort(l.Sort))
 			v.ts[i] = app("select", x.hget(h, key), p)
+			x.storedRefWF(h, l, v.ts[i])
 		}
 		return v
 	}
+}
+
+// storedRefWF: heap well-formedness - a reference (pointer or map) read from a heap cell denotes an object that
+// exists in that heap (or nil): it lies at or below the heap's allocation top. Only for ground terms.
+func (x *Enc) storedRefWF(h Heap, l Leaf, t Term) {
+	if l.Typ == nil || h.m == nil || strings.Contains(t, "qbv$") {
+		return
+	}
+	_, isPtr := l.Typ.Underlying().(*types.Pointer)
+	_, isMap := l.Typ.Underlying().(*types.Map)
+	if !isPtr && !isMap {
+		return
+	}
+	x.regKey(keyAlloc, "Int")
+	x.sc.assert(and(app(">=", t, "0"), app("<=", t, x.hget(h, keyAlloc))))
 }
 
 // storeAt writes v (of type t) to the location denoted by ptr.
